@@ -2027,15 +2027,6 @@ Proof.
     rewrite IH. cbn [app]. destruct cur; cbn [flush flat_map]; rewrite ?app_nil_r; reflexivity.
 Qed.
 
-Definition run_rel (cmp : tree -> tree -> comparison) (g : granularity)
-           (s : list tree + N) (o : list (list tree) + N) : Prop :=
-  match s, o with
-  | inl run, inl groups =>
-      forallb ast_shape run = true -> BadClass cmp g run = false ->
-      SameSet (Leaves (concat groups)) (Leaves run)
-  | inr a, inr b => a = b
-  | _, _ => False
-  end.
 
 Theorem runs_no_crossing cmp g grp reorder ig items :
   unseg (seg ig None items) = map strip items /\
